@@ -585,8 +585,10 @@ def propagate_attribute_aliases(trees: Dict[str, ast.Module]) -> int:
                                                                or any(isinstance(g, ast.Name) and g.id == root for g in x.args)) for x in ast.walk(fn))
                 if calls_root:
                     continue
-            if any(isinstance(y, ast.Name) and y.id == a for nf in nested for y in ast.walk(nf)):
-                continue  # captured by a closure: leave it
+            capturing = [nf for nf in nested if any(isinstance(y, ast.Name) and y.id == a for y in ast.walk(nf))]
+            if any(root in [p_.arg for p_ in nf.args.args + nf.args.kwonlyargs + nf.args.posonlyargs] or a in [p_.arg for p_ in nf.args.args + nf.args.kwonlyargs + nf.args.posonlyargs]
+                   or getattr(nf, "lineno", 0) < s.lineno for nf in capturing):
+                continue  # the closure has its own `root` / alias name, or exists before the alias does: leave it
             line = s.lineno
             uses = [x for x in ast.walk(fn) if isinstance(x, ast.Name) and x.id == a and isinstance(x.ctx, ast.Load)]
             if not uses or any(getattr(u, "lineno", 0) < line for u in uses):
@@ -997,6 +999,9 @@ def unroll_literal_loops(trees: Dict[str, ast.Module], max_rows: int = 32) -> in
 
         def table_of(it, local_tables=None):
             if isinstance(it, ast.Name) and local_tables and it.id in local_tables:
+                until = (local_tables.get("__until__") or {}).get(it.id)
+                if until is not None and getattr(it, "lineno", 0) >= until:
+                    return None  # a name the table's rows mention has been re-assigned by now
                 it = local_tables[it.id]
             elif isinstance(it, ast.Name) and it.id in consts and counts.get(it.id, 0) == 1 and it.id not in mutated:
                 it = consts[it.id]
@@ -1053,6 +1058,77 @@ def unroll_literal_loops(trees: Dict[str, ast.Module], max_rows: int = 32) -> in
                 touched.add(mod)
             return out
 
+        def comprehensions(fn, fn_locals):
+            """[E(v) for v in TABLE] with a literal table is the list of its rows' elements; a tuple assignment from such a list
+            (a, b, c = [E(r1), E(r2), E(r3)]) is the three assignments, as long as no value reads one of the targets"""
+            nonlocal done
+
+            class C(ast.NodeTransformer):
+                def visit_FunctionDef(self, n):
+                    return n if n is not fn else self.generic_visit(n)
+
+                def visit_Lambda(self, n):
+                    return n
+
+                def visit_ListComp(self, n):
+                    nonlocal done
+                    self.generic_visit(n)
+                    if len(n.generators) != 1 or n.generators[0].ifs or n.generators[0].is_async:
+                        return n
+                    g = n.generators[0]
+                    rows = table_of(g.iter, fn_locals.get("__tables__"))
+                    if rows is not None and isinstance(g.iter, ast.Name) and g.iter.id in fn_locals and g.iter.id not in (fn_locals.get("__tables__") or {}):
+                        rows = None
+                    if rows is None:
+                        return n
+                    tg = g.target
+                    names = [tg.id] if isinstance(tg, ast.Name) else ([e.id for e in tg.elts] if isinstance(tg, (ast.Tuple, ast.List)) and all(isinstance(e, ast.Name) for e in tg.elts) else None)
+                    if names is None or any(isinstance(y, (ast.Lambda, ast.ListComp, ast.SetComp, ast.DictComp, ast.GeneratorExp, ast.NamedExpr)) for y in ast.walk(n.elt)):
+                        return n
+                    if not any(isinstance(y, ast.Call) for y in ast.walk(n.elt)):
+                        return n  # a plain arithmetic map over a table (hours = [24 * d for d in days]) is left as the expression it is
+                    for r in rows:
+                        if isinstance(tg, ast.Name):
+                            if not simple(r):
+                                return n
+                        elif not (isinstance(r, (ast.Tuple, ast.List)) and len(r.elts) == len(names) and all(simple(e) for e in r.elts)):
+                            return n
+                    elts = []
+                    for r in rows:
+                        mp = {names[0]: r} if isinstance(tg, ast.Name) else dict(zip(names, r.elts))
+                        elts.append(_Subst(mp, {}).visit(copy.deepcopy(n.elt)))
+                    done += 1
+                    touched.add(mod)
+                    return ast.copy_location(ast.List(elts=elts, ctx=ast.Load()), n)
+
+            C().visit(fn)
+
+            def split(body):
+                out = []
+                for s_ in body:
+                    for fld in ("body", "orelse", "finalbody"):
+                        b = getattr(s_, fld, None)
+                        if isinstance(b, list) and b and isinstance(b[0], ast.stmt) and not isinstance(s_, (ast.FunctionDef, ast.ClassDef)):
+                            setattr(s_, fld, split(b))
+                    for h in getattr(s_, "handlers", []) or []:
+                        h.body = split(h.body)
+                    if isinstance(s_, ast.Assign) and len(s_.targets) == 1 and isinstance(s_.targets[0], (ast.Tuple, ast.List)) and isinstance(s_.value, ast.List) \
+                            and getattr(s_.value, "_from_table", False) is False and len(s_.targets[0].elts) == len(s_.value.elts) \
+                            and all(isinstance(e, ast.Name) for e in s_.targets[0].elts) and any(isinstance(y, ast.Call) for y in ast.walk(s_.value)):
+                        tn = {e.id for e in s_.targets[0].elts}
+                        if not any(isinstance(y, ast.Name) and y.id in tn for y in ast.walk(s_.value)) and len(tn) == len(s_.targets[0].elts):
+                            new = [ast.Assign(targets=[e], value=v) for e, v in zip(s_.targets[0].elts, s_.value.elts)]
+                            _relocate(new, s_)
+                            for y in new:
+                                ast.fix_missing_locations(y)
+                            out.extend(new)
+                            touched.add(mod)
+                            continue
+                    out.append(s_)
+                return out
+
+            return split(fn.body)
+
         for x in ast.walk(t):
             if isinstance(x, ast.FunctionDef):
                 loc = {y.id: True for y in ast.walk(x) if isinstance(y, ast.Name) and isinstance(y.ctx, ast.Store)}
@@ -1073,6 +1149,15 @@ def unroll_literal_loops(trees: Dict[str, ast.Module], max_rows: int = 32) -> in
                         used_attr = {_chain_text(z) for z in ast.walk(b_.value) if isinstance(z, ast.Attribute)}
                         if not (used & later_stores) and not (used_attr & later_attr):
                             tabs[b_.targets[0].id] = b_.value
+                        elif not any(isinstance(p_, (ast.For, ast.While)) and any(b_ is y for y in ast.walk(p_)) for p_ in x.body):
+                            # valid up to the first later statement of the function body that re-assigns something the rows mention
+                            for c_ in x.body[x.body.index(b_) + 1:]:
+                                st_n = {z.id for z in ast.walk(c_) if isinstance(z, ast.Name) and isinstance(z.ctx, (ast.Store, ast.Del))}
+                                st_a = {_chain_text(z) for z in ast.walk(c_) if isinstance(z, ast.Attribute) and isinstance(z.ctx, (ast.Store, ast.Del))}
+                                if (used & st_n) or (used_attr & st_a):
+                                    tabs[b_.targets[0].id] = b_.value
+                                    tabs.setdefault("__until__", {})[b_.targets[0].id] = c_.lineno
+                                    break
                 # the same for a table bound inside a branch: nothing it names may be re-assigned anywhere in the function
                 all_stores = {z.id for z in ast.walk(x) if isinstance(z, ast.Name) and isinstance(z.ctx, (ast.Store, ast.Del))}
                 all_attr = {_chain_text(z) for z in ast.walk(x) if isinstance(z, ast.Attribute) and isinstance(z.ctx, (ast.Store, ast.Del))}
@@ -1080,7 +1165,7 @@ def unroll_literal_loops(trees: Dict[str, ast.Module], max_rows: int = 32) -> in
                     if b_ in x.body or not (isinstance(b_, ast.Assign) and len(b_.targets) == 1 and isinstance(b_.targets[0], ast.Name) and isinstance(b_.value, (ast.Tuple, ast.List))):
                         continue
                     nm = b_.targets[0].id
-                    if stores.get(nm, 0) != 1 or nm in mutated or nm in tabs:
+                    if stores.get(nm, 0) != 1 or nm in mutated or nm in tabs or nm == "__until__":
                         continue
                     used = {z.id for z in ast.walk(b_.value) if isinstance(z, ast.Name)}
                     used_attr = {_chain_text(z) for z in ast.walk(b_.value) if isinstance(z, ast.Attribute)}
@@ -1088,6 +1173,7 @@ def unroll_literal_loops(trees: Dict[str, ast.Module], max_rows: int = 32) -> in
                         tabs[nm] = b_.value
                 loc["__tables__"] = tabs
                 x.body = rewrite(x.body, loc)
+                x.body = comprehensions(x, loc)
     for mod in touched:
         renumber(trees[mod])
     return done
